@@ -95,6 +95,7 @@ def run(ctx):
     ctx.rule("R-WHO", "call sites are exactly the confirmed ones")
     ctx.rule("R-REG", "decision table by abstract interpretation equals the spec")
     ctx.rule("R-FLOW", "operand provenance")
+    ctx.rule("R-GRD", "a state change happens only behind its guard")
 
     # ---- C08.a cancellation safety of the receive race -------------------------------
     nsel = 0
@@ -122,6 +123,58 @@ def run(ctx):
                            "lose bytes already taken from the socket)" % (short(co[:-len("::{closure#0}")]), short(root_fn(f, n))),
                            where=c.where(), detail=[{"in": short(r[0]), "call": r[1], "at": r[2]} for r in unsafe_reads] or None)
     ctx.floor("R-ASYNC", "select/timeout races in rtr::server", nsel, 1)
+    # a completed header is handed out exactly once: read_header zeroes the cursor on every success path itself
+    rh = f.body(SRV + "read_header::{closure#0}")
+    if rh is None:
+        ctx.missing("R-FLOW", "Connection::read_header", SRV + "read_header")
+    else:
+        ctx.saw_fn(rh.name)
+        sy = K.sym_of(rh)
+        zero = set()
+        for bi, blk in enumerate(rh.blocks):
+            for st in blk["stmts"]:
+                if st["s"] == "assign" and st["pl"]["p"] == [["d"]] and rh.local_ty(st["pl"]["l"]).startswith("&mut usize") \
+                        and render(strip_deep(sy.rvalue(st["rv"]))) == "0":
+                    zero.add(bi)
+        oc = outcome(rh)
+        succ_ret = [bi for bi in oc.success_assign_blocks]
+        reach = rh.reachable(0, removed_blocks=zero)
+        leak = [rh.where(bi) for bi in succ_ret if bi in reach]
+        ok_rh = bool(zero) and bool(succ_ret) and not leak
+        if not ok_rh:
+            # alternative: the caller zeroes the stored length before it looks at the header at all
+            rc = f.body(SRV + "recv::{closure#0}")
+            if rc is not None:
+                dom = rc.dominators()
+                z2 = {bi for bi, blk in enumerate(rc.blocks) for st in blk["stmts"]
+                      if st["s"] == "assign" and any(p[0] == "f" and p[1] == "header_len" for p in st["pl"]["p"])
+                      and render(strip_deep(K.sym_of(rc).rvalue(st["rv"]))) == "0"}
+                uses = [c.bb for c in rc.calls() if c.name in ("check_version", "check_length") or (c.res or "").endswith("Header::pdu")]
+                ok_rh = bool(z2) and bool(uses) and all(any(z in dom.get(u, ()) for z in z2) for u in uses)
+        ctx.ob("R-FLOW", "Connection::read_header:cursor-zeroed-with-the-header", ok_rh,
+               "read_header resets its cursor on every path that returns a completed header (whatever the caller does next, the "
+               "same header cannot be handed out twice)", where=rh.loc, detail={"returns_without_reset": leak})
+    # the negotiated version is stored only for an acceptable first query
+    cv = f.body(SRV + "check_version")
+    if cv is None:
+        ctx.missing("R-GRD", "Connection::check_version", SRV + "check_version")
+    else:
+        stores = [bi for bi, blk in enumerate(cv.blocks) for st in blk["stmts"]
+                  if st["s"] == "assign" and any(p[0] == "f" and p[1] == "version" for p in st["pl"]["p"])]
+        okv = bool(stores)
+        det = []
+        for bi in stores:
+            g = K.dominating_guards(f, cv, bi)
+            det.append(g)
+            if not any(re.match(r"^Gt\(Header::version\(%2\), (2|.*MAX_VERSION.*)\) -> 0$", x) or
+                       re.match(r"^Le\(Header::version\(%2\), (2|.*MAX_VERSION.*)\) -> else$", x) for x in g):
+                okv = False
+        ctx.ob("R-GRD", "Connection::check_version:version-stored-only-if-supported", okv,
+               "check_version remembers the client's version only on the branch where it is not above MAX_VERSION (a rejected "
+               "first query must not pin the connection to an unsupported version)", where=cv.loc, detail=det)
+    # fragmentation: fixed-size parts are filled by read_exact, a plain `read` only inside the two cursor loops
+    from props.C07 import check_plain_reads
+    check_plain_reads(ctx, f)
 
     # ---- C08.b one complete response per query ------------------------------------------
     W = {PDU + "CacheResponse::write": "CR", PDU + "Payload::write": "P", PDU + "EndOfData::write": "EOD",
